@@ -209,12 +209,26 @@ impl TzifOwned {
         // trigger for any times before the first transition found in the TZif
         // data.
         self.transitions.add_with_type_index(TIMESTAMP_MIN, 0);
+        let mut prev: Option<i64> = None;
         while let Some(chunk) = it.next() {
             let mut timestamp = if header.is_32bit() {
                 i64::from(from_be_bytes_i32(chunk))
             } else {
                 from_be_bytes_i64(chunk)
             };
+            // RFC 8536 says that transition times are "sorted in strictly
+            // ascending order." All of our lookups (binary search) rely on
+            // this.
+            if let Some(prev) = prev {
+                if timestamp <= prev {
+                    return Err(err!(
+                        "found transition time {timestamp} that does not \
+                         come after the transition time {prev} before it, \
+                         but transition times must be strictly ascending",
+                    ));
+                }
+            }
+            prev = Some(timestamp);
             if !(TIMESTAMP_MIN <= timestamp && timestamp <= TIMESTAMP_MAX) {
                 // We really shouldn't error here just because the Unix
                 // timestamp is outside what Jiff supports. Since what Jiff
@@ -224,9 +238,10 @@ impl TzifOwned {
                 // min or max value.
                 //
                 // This can't result in the sorting order being wrong, but
-                // it can result in a transition that is duplicative with
-                // the dummy transition we inserted above. This should be
-                // fine.
+                // it can result in transitions that are duplicative with
+                // each other (and with the dummy transition we inserted
+                // above). The routines that look for the previous or next
+                // transition account for this.
                 let clamped = timestamp.clamp(TIMESTAMP_MIN, TIMESTAMP_MAX);
                 // only-jiff-start
                 warn!(
